@@ -299,6 +299,24 @@ def history(seed, trial):
                 after = ({c: qv for c, qv in b.holdings_quantity.items() if not isinstance(c, Cash)}, len(b.track_record))
                 if after != before:
                     viol.append(("C13::rejected_rebalance_changes_nothing", {"call": what}))
+        # C13: a rebalance that targets a flat contract which has no quote (never quoted) needs a missing quote: it must be rejected
+        # before any trade, whatever the unit, the threshold and the lot mode
+        if trial % 2 == 1 or not heldk:
+            ghost = ETF("NEVERQUOTED")
+            tt += timedelta(days=1)
+            quotes(ex, tt, spread, r, px)
+            before = ({c: qv for c, qv in b.holdings_quantity.items() if not isinstance(c, Cash)}, len(b.track_record))
+            for meas, tgt in (("weight", [0.2, 0.1]), ("nr-contracts", [3.0, 2.0])):
+                for mg in (0.0, 0.05, margin):
+                    try:
+                        b.rebalance(Rebalancing([CS[0], ghost], tgt, measure=meas, fractional=not whole, margin=mg, time=tt))
+                        viol.append(("C13::missing_quote_fails_loudly", {"call": "rebalance targeting a never-quoted flat contract", "measure": meas, "threshold": mg}))
+                    except ValueError:
+                        pass
+                    after = ({c: qv for c, qv in b.holdings_quantity.items() if not isinstance(c, Cash)}, len(b.track_record))
+                    if after != before:
+                        viol.append(("C13::rejected_rebalance_changes_nothing", {"call": "rebalance targeting a never-quoted flat contract", "measure": meas, "threshold": mg}))
+                        before = after
     except EndOfEpisodeError:
         pass          # the account went insolvent: the history ends here (C09)
     except Exception as ex_:
